@@ -8,7 +8,7 @@ KEY = {
  "D9": "unknown op", "D11": "minimal quote style", "D12": "copy assignment leaves the target", "D13": "flattening nested containers", "D17": "high-precision numbers that are not valid",
  "D18": "jmespath merge()", "D20": "operator>>=", "D21": "write_bytes_be", "D22": "pack_strings counts bignum", "D23": "null character", "D24": "resumes in the zero state",
  "D25": "string together with its terminator", "D26": "merge_or_update(&&) inserts", "D27": "compares doubles directly", "D29": "stops at the first error", "D30": "allocator-extended move constructor", "D32": "quotes column names in the header row", "D33": "escapes the quote escape character itself", "D34": "tab or space at the start of a record", "D36": "toon reader treats the digits", "D38": "expected_rparen when a function argument", "D39": "unbalanced closing tokens", "D40": "msgpack parser honours the mark level", "D41": "whose text is not a number as plain text",
- "D14": "json_traits for std::tuple", "D42": "reserves at most 4096", "D43": "uri::base() is not noexcept", "D44": "invalid regular expressions in JSONPath", "D45": "negates in the unsigned domain", "D52": "boolean bytes other than 0/1", "D53": "tagged mantissa is not a bignum", "D54": "unknown type marker after", "D55": "decimal point position of a number is computed in 64 bits", "D31": "builds each undo entry", "D58": "zero quotient digit", "D59": "second normalization step", "D60": "underflow were read as", "D61": "float_format fixed without a precision", "D62": "with a signed integer negate in the unsigned domain", "D63": "is a proper prefix of", "D64": "member by member regardless of order",
+ "D14": "json_traits for std::tuple", "D42": "reserves at most 4096", "D43": "uri::base() is not noexcept", "D44": "invalid regular expressions in JSONPath", "D45": "negates in the unsigned domain", "D52": "boolean bytes other than 0/1", "D53": "tagged mantissa is not a bignum", "D54": "unknown type marker after", "D55": "decimal point position of a number is computed in 64 bits", "D31": "builds each undo entry", "D58": "zero quotient digit", "D59": "second normalization step", "D60": "underflow were read as", "D61": "float_format fixed without a precision", "D62": "with a signed integer negate in the unsigned domain", "D63": "is a proper prefix of", "D64": "test compares objects member by member regardless of order", "D19": "\"not\" passes the annotations of its failed subschema", "D65": "\"contains\" records items evaluated inside an item", "D66": "const/enum/uniqueItems compare objects member by member", "D67": "reports errors at the enclosing object instead of at the member", "D68": "records properties evaluated inside a member value as evaluated properties of the object", "D69": "throw std::system_error for a big integer instance", "D70": "records a wrong index range when an already evaluated item",
 }
 log = subprocess.run(["git", "-C", "/repo", "log", "--format=%h\t%s"], capture_output=True, text=True).stdout.splitlines()
 p = "/verif/known_findings.json"
